@@ -100,6 +100,15 @@ func shapeDoc(s map[string]any, r *rand.Rand) *sbom.Document {
 			nl.Edges = []*sbom.Edge{{Type: ct, From: "a", To: []string{"b", "c"}}, {Type: sbom.Edge_dependsOn, From: "c", To: []string{"b"}}}
 		case "cycle":
 			nl.Edges = []*sbom.Edge{{Type: ct, From: "a", To: []string{"b"}}, {Type: ct, From: "b", To: []string{"c"}}, {Type: ct, From: "c", To: []string{"a"}}}
+		case "cycle-tail": // a containment cycle entered from a node outside it
+			// root a > b > c > d > c : the cycle {c, d} is first reached from b, which is neither the root nor in the cycle
+			nl.Nodes = append(nl.Nodes, &sbom.Node{Id: "d", Name: "nd"})
+			nl.Edges = []*sbom.Edge{{Type: ct, From: "a", To: []string{"b"}}, {Type: ct, From: "b", To: []string{"c"}},
+				{Type: ct, From: "c", To: []string{"d"}}, {Type: ct, From: "d", To: []string{"c"}}}
+		case "deps-cycle":
+			nl.Edges = []*sbom.Edge{{Type: ct, From: "a", To: []string{"b", "c"}}, {Type: sbom.Edge_dependsOn, From: "b", To: []string{"c"}}, {Type: sbom.Edge_dependsOn, From: "c", To: []string{"b", "c"}}}
+		case "dag": // a node contained twice
+			nl.Edges = []*sbom.Edge{{Type: ct, From: "a", To: []string{"b", "c"}}, {Type: ct, From: "b", To: []string{"c"}}}
 		case "dangling":
 			nl.Edges = []*sbom.Edge{{Type: ct, From: "a", To: []string{"zz"}}, {Type: sbom.Edge_dependsOn, From: "yy", To: []string{"a"}}}
 		case "niledge":
@@ -219,7 +228,18 @@ func serRun(args []string) error {
 		sort.Slice(all, func(i, j int) bool { return canon(all[i]) < canon(all[j]) })
 		r.Shuffle(len(all), func(i, j int) { all[i], all[j] = all[j], all[i] })
 		if *sample > 0 && *sample < len(all) {
-			all = all[:*sample]
+			// the sample always contains the "serializable core" (complete metadata, nodes, exactly one root, no nil
+			// elements) in full - there every node and edge variant reaches the deepest code - plus a seeded share of the rest
+			var core, rest []map[string]any
+			for _, sh := range all {
+				if str(sh, "meta") == "full" && str(sh, "nl") == "nodes" && str(sh, "roots") == "one" && str(sh, "extra") == "none" &&
+					(str(sh, "dt") == "none" || str(sh, "dt") == "typed") {
+					core = append(core, sh)
+				} else {
+					rest = append(rest, sh)
+				}
+			}
+			all = append(core, rest[:max(0, *sample-len(core))]...)
 		}
 		for i, s := range all {
 			if i%*nshards == *shard {
